@@ -132,6 +132,28 @@ Definition extend_seed (rss_seed : Z) (seeds : list Z) : res Z :=
   else Ok rss_seed.
 
 (* ------------------------------------------------------------------ *)
+(* parallelize: pid_result_list_map is filled in the order in which the
+   result records ARRIVE (a dict: assignment to a present key keeps its
+   position); the result list is put together by pid                    *)
+Fixpoint rmap_set {A} (m : list (Z * A)) (k : Z) (v : A) : list (Z * A) :=
+  match m with
+  | [] => [(k, v)]
+  | (k', v') :: r => if k' =? k then (k, v) :: r else (k', v') :: rmap_set r k v
+  end.
+Fixpoint rmap_get {A} (m : list (Z * A)) (k : Z) : res A :=
+  match m with
+  | [] => Err KeyError
+  | (k', v) :: r => if k' =? k then Ok v else rmap_get r k
+  end.
+(* {0: result_list_0}, then one entry per arriving (pid, result_list) *)
+Definition collect {A} (res0 : list A) (arrivals : list (Z * list A)) : list (Z * list A) :=
+  fold_left (fun m pr => rmap_set m (asm_store_at (fst pr)) (snd pr)) arrivals [(0, res0)].
+(* for pid in range(len(map)): result_list += map[pid] *)
+Definition assemble {A} (m : list (Z * list A)) : res (list A) :=
+  fold_left (fun acc pid => do a <- acc; do l <- rmap_get m (asm_take_idx pid); Ok (a ++ l))
+            (zrange 0 (zlen m)) (Ok []).
+
+(* ------------------------------------------------------------------ *)
 (* the generator as an abstract deterministic machine                   *)
 
 Inductive req : Type :=
